@@ -2023,6 +2023,10 @@ func (c *Ctx) hasRealField(t types.Type, name string) bool {
 // callHooks: per-path call log, `order` and `atcall` clauses of the function under verification.
 func (env *Env) callHooks(fobj *types.Func, recv *Val, args []Val, st *State, call *ast.CallExpr) {
 	env.callHooksNamed(fobj.Name(), recv, args, st, call)
+	if recv == nil && fobj.Pkg() != nil {
+		// package-level functions are also logged with their package name: called("slices.Clone")
+		st.calls = append(st.calls, fobj.Pkg().Name()+"."+fobj.Name())
+	}
 }
 
 func (env *Env) callHooksNamed(name string, recv *Val, args []Val, st *State, call *ast.CallExpr) {
